@@ -528,6 +528,8 @@ def units(tier):
     cases = [("function", "T", True, 3), ("function", "T", False, 3), ("function", "TXNU", True, 3), ("method", "T", True, 3),
              ("method", "", False, 2), ("function", "UT", True, 2), ("function", "TT", True, 4), ("method", "N", True, 4),
              ("function", "", True, 3)]
+    if tier == "thorough":
+        cases = cases + [("function", "T", True, 5), ("method", "TX", True, 6), ("function", "TU", False, 7)]
     us = [("backward[%s,%s,ts_grad=%s,nt=%d]" % (k, p or "-", g, nt), (lambda k=k, p=p, g=g, nt=nt: unit_backward(k, p, g, nt)))
           for k, p, g, nt in cases]
     us.append(("backward[function,T,ts_grad=False,nt=3,varying]", lambda: unit_backward("function", "T", False, 3, True)))
